@@ -849,6 +849,7 @@ def _time_string_parsers(chk, repo):
 def battery():
     from sa.battery import M
     return [
+        M("opposite-to-current state decided by the first switch only", SC, "        for switch in switches:\n            if state == 2:\n                handler_state = 0 if self.is_active(switch) else 1\n            else:\n                handler_state = state\n", "        handler_state = state\n        for switch in switches:\n            if handler_state == 2:\n                handler_state = 0 if self.is_active(switch) else 1\n", "TRIP-0"),
         M("hold time in ms subtracted from clock", SC, "current_time - (ms / 1000.0)", "current_time - ms", "UNIT-1"),
         M("deadline adds raw ms", SC, "key = switch.last_change + (entry.ms / 1000.0)", "key = switch.last_change + entry.ms", "UNIT-1"),
         M("catch-up direction inverted", SC, "if switch.last_change > current_time - (ms / 1000.0) and state == switch.state:", "if switch.last_change < current_time - (ms / 1000.0) and state == switch.state:", "UNIT-1"),
